@@ -17,8 +17,17 @@ package server
 //@   requires [line] line != nil && line.Content != nil
 //@   requires [fieldsCh] fieldsCh != nil
 //@   chaninv fieldsCh [fields-nonnil] elem != nil
+// One line's fields into the group it belongs to (C05): the group key is the
+// values of the group-by fields joined by "," (a missing field gives an empty
+// piece); the aggregate updated is the one the GIVEN group holds under that key;
+// every selected column whose field the line has is aggregated under its
+// storage name with its own operation, server side (a count counts the line).
 //@ func (*Aggregate).aggregate
 //@   requires [group] group != nil && fields != nil
+//@   bind set == GetSet
+//@   loop 1 step [group-key-piece] sb.content == prev(sb.content) + ite(rangeindex > 0, ",", "") + ite(has(fields, a.query.GroupBy[rangeindex]), fields[a.query.GroupBy[rangeindex]], "")
+//@   at-call GetSet [of-the-given-group-by-its-key] arg0 == group && arg1 == sb.content
+//@   at-call ).Aggregate [into-that-groups-aggregate] arg0 == set && arg1 == a.query.Select[rangeindex + 1].FieldStorage && arg2 == a.query.Select[rangeindex + 1].Operation && has(fields, a.query.Select[rangeindex + 1].Field) && arg3 == fields[a.query.Select[rangeindex + 1].Field] && !arg4
 //@ func (*Aggregate).Start$1
 //@   requires [captured] a != nil && cancel != nil && myCtx != nil
 //@ func (*Aggregate).fieldsFromLines
